@@ -34,9 +34,99 @@ def _post(b, y):
     return b.unary("RELU", y)
 
 
-def _one(rng, builder, dtype, ifm, post, embed):
+# ---- neighbours that later passes may merge with the operator under test ---------------------------------------
+def _q1(t):
+    return t.dtype in QUANT and t.scales and len(t.scales) == 1 and t.zps and 0 < len(t.shape) <= 4 and all(d > 0 for d in t.shape)
+
+
+def _f_unary(kind):
+    return lambda b, y: b.unary(kind, y) if _q1(b.t(y)) else None
+
+
+def _f_quantize(b, y):
+    return b.quantize(y) if _q1(b.t(y)) else None
+
+
+def _f_reshape(b, y):
+    yt = b.t(y)
+    if not _q1(yt):
+        return None
+    n = int(np.prod(yt.shape))
+    return b.reshape(y, [1, n] if list(yt.shape) != [1, n] else [n, 1])
+
+
+def _f_expand(b, y):
+    yt = b.t(y)
+    if not _q1(yt) or len(yt.shape) > 3:
+        return _f_squeeze(b, y)
+    ax = b.const([1], "int32", [0])
+    o = b.fm([1] + list(yt.shape), yt.dtype, scale=yt.scales[0], zp=yt.zps[0])
+    b.net.ops.append(Op("EXPAND_DIMS", [y, ax], [o], ("ExpandDimsOptions", {})))
+    return o
+
+
+def _f_squeeze(b, y):
+    yt = b.t(y)
+    if not _q1(yt) or 1 not in yt.shape or len(yt.shape) < 2:
+        return _f_reshape(b, y)
+    o = b.fm([d for d in yt.shape if d != 1] or [1], yt.dtype, scale=yt.scales[0], zp=yt.zps[0])
+    b.net.ops.append(Op("SQUEEZE", [y], [o], ("SqueezeOptions", dict(SqueezeDims=[i for i, d in enumerate(yt.shape) if d == 1]))))
+    return o
+
+
+def _f_const(kind):
+    def f(b, y):
+        yt = b.t(y)
+        if not _q1(yt):
+            return None
+        c = yt.shape[-1]
+        shape = [1] * (len(yt.shape) - 1) + [c]
+        lo = 0 if yt.dtype == "uint8" else -50
+        cst = b.const(shape, yt.dtype, [(lo + 7 * i) % 100 for i in range(c)], [0.05], [0 if yt.dtype != "uint8" else 3])
+        return b.binary(kind, y, cst)
+    return f
+
+
+def _f_valid(kind):
+    """a 3x3 VALID consumer: the operator a PAD in front of it is folded into (hardware padding)"""
+    def f(b, y):
+        yt = b.t(y)
+        if not _q1(yt) or len(yt.shape) != 4 or yt.shape[1] < 3 or yt.shape[2] < 3 or yt.shape[3] > 64:
+            return None
+        if kind == "CONV_2D":
+            return b.conv(y, 4, (3, 3), (1, 1), (1, 1), "VALID", per_channel=False)
+        if kind == "DEPTHWISE_CONV_2D":
+            return b.dwconv(y, (3, 3), (1, 1), (1, 1), "VALID", per_channel=False)
+        return b.pool(y, "AVERAGE_POOL_2D", (3, 3), (1, 1), "VALID")
+    return f
+
+
+# name -> (where, builder).  LUT activations are merged into the producer only on accelerators with reserved LUT banks.
+NEIGHBOURS = [
+    ("TANH", "after", _f_unary("TANH")), ("LOGISTIC", "after", _f_unary("LOGISTIC")), ("LEAKY_RELU", "after", _f_unary("LEAKY_RELU")),
+    ("HARD_SWISH", "after", _f_unary("HARD_SWISH")),
+    ("RELU", "after", _f_unary("RELU")), ("RELU6", "after", _f_unary("RELU6")), ("RELU_N1_TO_1", "after", _f_unary("RELU_N1_TO_1")),
+    ("QUANTIZE", "after", _f_quantize), ("RESHAPE", "after", _f_reshape), ("EXPAND_DIMS/SQUEEZE", "after", _f_expand),
+    ("ADD const", "after", _f_const("ADD")), ("MUL const", "after", _f_const("MUL")),
+    ("PAD", "before", None),
+    ("CONV_2D 3x3 VALID", "after", _f_valid("CONV_2D")), ("AVERAGE_POOL_2D 3x3 VALID", "after", _f_valid("AVERAGE_POOL_2D")),
+]
+LUT_NEIGHBOURS = ("TANH", "LOGISTIC", "LEAKY_RELU", "HARD_SWISH")
+FOLD = ("CONV_2D 3x3 VALID", "AVERAGE_POOL_2D 3x3 VALID")     # what a PAD in front is folded into
+_STATE = {"per_case": 3, "ctr": 0}
+
+
+def _one(rng, builder, dtype, ifm, post, embed, neighbour=None):
     b = B(rng, "c16", dtype)
-    x = b.input(list(ifm))
+    nb = NEIGHBOURS[neighbour] if neighbour is not None else None
+    if nb is not None and nb[1] == "before":
+        # PAD in front: the padded tensor has the shape the operator under test is sampled for
+        if len(ifm) != 4 or ifm[1] < 3 or ifm[2] < 3 or dtype not in QUANT:
+            return None
+        x = b.input([ifm[0], ifm[1] - 2, ifm[2] - 2, ifm[3]])
+        x = b.pad(x, [[0, 0], [1, 1], [1, 1], [0, 0]])
+    else:
+        x = b.input(list(ifm))
     if embed:
         x = _pre(b, x)
     tgt = len(b.net.ops)
@@ -46,21 +136,48 @@ def _one(rng, builder, dtype, ifm, post, embed):
     outs = y if isinstance(y, list) else [y]
     if embed:
         outs = [_post(b, o) for o in outs]
+    if nb is not None and nb[1] == "after":
+        f = nb[2](b, outs[0])
+        if f is None:
+            return None
+        outs = [f] + outs[1:]
     net = b.finish(outs)
     net.tgt = tgt          # index of the operator under test
+    if nb is not None:
+        net.neighbour = nb[0]
+        # only table-lookup activations are treated differently by the two accelerator classes (reserved LUT banks or not):
+        # these networks are compiled for one accelerator of each class
+        net.both_classes = nb[0] in LUT_NEIGHBOURS
     if post:
         post(b, net)
     return net
 
 
-def single(rng, builder, dtype="int8", ifm=(1, 8, 8, 4), post=None):
+def single(rng, builder, dtype="int8", ifm=(1, 8, 8, 4), post=None, neighbours=None, nbk=None, also=()):
     """the operator built by `builder(b, x)` (a) alone on a fresh input, (b) between accelerated neighbours
-    (1x1 CONV_2D / RELU -> X -> 1x1 CONV_2D / RELU)"""
+    (1x1 CONV_2D / RELU -> X -> 1x1 CONV_2D / RELU), (c) next to operators that later passes may merge with it:
+    X -> LUT activation / RELU-type activation / QUANTIZE / RESHAPE-like / ADD, MUL with a constant / 3x3 VALID convolution or
+    average pool (what a PAD is folded into), PAD -> X.
+    `neighbours`: indices into NEIGHBOURS; default = `_STATE["per_case"]` of them in rotation (quick: 3, or `nbk` for the
+    large sweeps; thorough: every kind); `also`: names of kinds that are always included."""
     v = Variants()
     for suffix, embed in (("", False), (" [between NPU ops]", True)):
         net = _one(rng, builder, dtype, ifm, post, embed)
         if net is not None:
             v.append((suffix, net))
+    if neighbours is None:
+        k = _STATE["per_case"] if nbk is None or _STATE["per_case"] >= len(NEIGHBOURS) else nbk
+        if k >= len(NEIGHBOURS):
+            neighbours = range(len(NEIGHBOURS))
+        else:
+            neighbours = [(_STATE["ctr"] * k + i) % len(NEIGHBOURS) for i in range(k)]
+            _STATE["ctr"] += 1
+    neighbours = list(neighbours) + [i for i, nb in enumerate(NEIGHBOURS) if nb[0] in also and i not in neighbours]
+    for n in neighbours:
+        net = _one(rng, builder, dtype, ifm, post, False, n)
+        if net is not None:
+            nb = NEIGHBOURS[n]
+            v.append((f" [{nb[0]} in front]" if nb[1] == "before" else f" [then {nb[0]}]", net))
     return v
 
 
@@ -81,6 +198,8 @@ def _conv_net(rng, label, **kw):
 
 def cases(rng, thorough=False):
     out = []
+    _STATE["per_case"] = len(NEIGHBOURS) if thorough else 3
+    _STATE["ctr"] = rng.randrange(len(NEIGHBOURS))
 
     def add(label, net):
         if isinstance(net, Variants):
@@ -149,6 +268,23 @@ def cases(rng, thorough=False):
         net.inputs.append(net.ops[net.tgt].inputs[1])
     conv_mod("conv dynamic weights", dyn_weights)
     conv_mod("dwconv dynamic weights", dyn_weights, kind="dw")
+
+    # --force-symmetric-int-weights rewrites the weight zero points BEFORE the supported-operator check; an operator that is then left
+    # on the CPU (weights that are not constant) must be written with its own zero points (per tensor and per axis)
+    def dyn_asym(per_axis):
+        def f(net):
+            dyn_weights(net)
+            wt = net.tensors[net.ops[net.tgt].inputs[1]]
+            n = len(wt.scales) if per_axis else 1
+            wt.scales = list(wt.scales[:n]) if len(wt.scales) >= n else [wt.scales[0]] * n
+            wt.zps = [((7 * i) % 23) - 11 or 5 for i in range(n)]
+            net.extra_opts = ["--force-symmetric-int-weights"]
+        return f
+    for kind in ("conv", "dw"):
+        for per_axis in (False, True):
+            for dt in ("int8", "int16"):
+                conv_mod(f"{kind} dynamic asymmetric weights per_axis={per_axis} {dt} --force-symmetric-int-weights", dyn_asym(per_axis), kind=kind, dtype=dt,
+                         per_channel=per_axis)
 
     def w_dtype16(net):
         wt = net.tensors[net.ops[net.tgt].inputs[1]]
@@ -304,6 +440,7 @@ def cases(rng, thorough=False):
     def out_type(b, x):
         o = b.binary("ADD", x, x)
         b.t(o).dtype = "uint8"
+        b.t(o).zps = [b.t(o).zps[0] + 128]      # a zero point inside the range of the new type
         return o
     add("ADD int8 -> uint8", single(rng, out_type, ifm=(1, 4, 4, 8)))
     # ---- unary ------------------------------------------------------------------------------------------------------
@@ -361,7 +498,7 @@ def cases(rng, thorough=False):
                   (1, 8, 8, 4), (1, 1, 8, 4), (1, 8, 1, 4), (1, 8, 8, 1), (2, 8, 8, 4), (2, 1, 8, 4)):
         for r in range(1, len(shape) + 1):
             for axes in itertools.combinations(range(len(shape)), r):
-                add(f"MEAN rank{len(shape)} {shape} axes={axes}", single(rng, mean(axes, r % 2 == 1), dtype="int8", ifm=shape))
+                add(f"MEAN rank{len(shape)} {shape} axes={axes}", single(rng, mean(axes, r % 2 == 1), dtype="int8", ifm=shape, nbk=1))
     add("MEAN int16 256x257", single(rng, mean((1, 2)), dtype="int16", ifm=(1, 256, 257, 1)))
     add("MEAN int16 256x256", single(rng, mean((1, 2)), dtype="int16", ifm=(1, 256, 256, 1)))
     add("MEAN keep_dims false", single(rng, mean((1, 2), False)))
@@ -380,20 +517,20 @@ def cases(rng, thorough=False):
         for ifm, ofm in (((4, 4), (8, 8)), ((4, 4), (16, 16)), ((4, 4), (32, 32)), ((4, 4), (12, 12)), ((4, 4), (64, 64)), ((4, 4), (8, 16)), ((4, 4), (4, 4)),
                          ((1, 1), (5, 7)), ((4, 4), (7, 7)), ((4, 4), (13, 13)), ((3, 5), (5, 9)), ((2, 2), (3, 3))):
             for align, half in ((False, False), (True, False), (False, True), (True, True)):
-                add(f"{kind} {ifm}->{ofm} align={align} half={half}", single(rng, resize(kind, ofm, align, half), ifm=(1, ifm[0], ifm[1], 4)))
+                add(f"{kind} {ifm}->{ofm} align={align} half={half}", single(rng, resize(kind, ofm, align, half), ifm=(1, ifm[0], ifm[1], 4), nbk=1))
         add(f"{kind} size tensor mismatch", single(rng, resize(kind, (8, 8), False, False, size=(8, 9)), ifm=(1, 4, 4, 4)))
     # ---- pad ------------------------------------------------------------------------------------------------------------------
     for pads, lab in (([[0, 0], [1, 1], [1, 1], [0, 0]], "hw"), ([[0, 0], [0, 0], [0, 0], [1, 1]], "c"), ([[1, 0], [0, 0], [0, 0], [0, 0]], "n"),
                       ([[0, 0], [2, 0], [0, 3], [0, 0]], "hw asym"), ([[0, 0], [1, 1], [1, 1], [2, 2]], "hwc"), ([[0, 0], [0, 0], [0, 0], [0, 0]], "zero")):
         for dt in ("int8", "uint8", "int16"):
-            add(f"PAD {lab} {dt}", single(rng, lambda b, x, pads=pads: b.pad(x, pads), dtype=dt))
+            add(f"PAD {lab} {dt}", single(rng, lambda b, x, pads=pads: b.pad(x, pads), dtype=dt, also=FOLD))
 
         def pad64(b, x, pads=pads):
             o = b.pad(x, pads)
             pt = b.t(b.net.ops[-1].inputs[1])
             pt.dtype, pt.data = "int64", np.asarray(pt.data).astype(np.int64)
             return o
-        add(f"PAD {lab} int64 paddings", single(rng, pad64))
+        add(f"PAD {lab} int64 paddings", single(rng, pad64, also=FOLD))
 
     def pad3(b, x):
         xt = b.t(x)
@@ -407,7 +544,27 @@ def cases(rng, thorough=False):
         o = b.pad(x, [[0, 0], [1, 1], [1, 1], [0, 0]])
         b.t(o).shape[1] += 1
         return o
-    add("PAD wrong output shape", single(rng, pad_wrong))
+    add("PAD wrong output shape", single(rng, pad_wrong, also=FOLD))
+
+    # PADs that stay on the CPU for a reason that leaves the padding itself foldable (1 row / column): the VALID consumer is accelerated
+    def pad_cpu(how):
+        def f(b, x):
+            o = b.pad(x, [[0, 0], [1, 1], [1, 1], [0, 0]])
+            op = b.net.ops[-1]
+            if how == "dynamic paddings":
+                pt = b.t(op.inputs[1])
+                pt.data = None
+                b.net.inputs.append(op.inputs[1])
+            elif how == "output one row more":
+                b.t(o).shape[1] += 1
+            elif how == "output type int16":
+                b.t(o).dtype = "int16"
+            elif how == "no quantisation on input":
+                b.t(op.inputs[0]).scales, b.t(op.inputs[0]).zps = None, None
+            return o
+        return f
+    for how in ("dynamic paddings", "output one row more", "output type int16", "no quantisation on input", "batch 2"):
+        add(f"PAD left on the CPU ({how})", single(rng, pad_cpu(how), ifm=(2, 8, 8, 4) if how == "batch 2" else (1, 8, 8, 4), also=FOLD))
     # ---- reshape / concat / split / strided slice ---------------------------------------------------------------------------------
     for ifm, ofm in (((1, 4, 4, 8), (1, 128)), ((1, 4, 4, 8), (1, 1, 16, 8)), ((4, 4, 4, 8), (4, 128)), ((1, 4, 4, 8), (2, 2, 4, 8))):
         add(f"RESHAPE {ifm}->{ofm}", single(rng, lambda b, x, ofm=ofm: b.reshape(x, list(ofm)), ifm=ifm))
@@ -561,6 +718,62 @@ def cases(rng, thorough=False):
     for name, pat in pats.items():
         for dt in ("int8", "uint8"):
             add(f"pattern {name} {dt}", single(rng, pat, dtype=dt))
+    # ---- core matrix: representative instances inside / just outside a documented range x EVERY neighbour kind, each compiled for an
+    # accelerator without and one with reserved LUT banks (Net.both_classes) ------------------------------------------------------------------
+    def cv(**kw):
+        return lambda b, x: b.conv(x, kw.get("oc", 4), kw.get("k", (1, 1)), kw.get("stride", (1, 1)), kw.get("dil", (1, 1)), kw.get("padding", "VALID"),
+                                   **{k: v for k, v in kw.items() if k in ("act", "per_channel", "bias")})
+
+    def add_mixed(b, x):
+        return b.binary("ADD", x, b.input(list(b.t(x).shape), "uint8"))
+
+    def add_two(kind):
+        return lambda b, x: b.binary(kind, x, b.input(list(b.t(x).shape)))
+
+    def fc_dynamic(b, x):
+        o = b.fc(x, 8)
+        w = b.net.ops[-1].inputs[1]
+        b.t(w).data = None
+        b.net.inputs.append(w)
+        return o
+
+    core = [
+        ("conv 1x1 stride 1", cv(), {}), ("conv 1x1 stride 3x3", cv(stride=(3, 3)), dict(ifm=(1, 9, 9, 4))), ("conv 1x1 stride 4x4", cv(stride=(4, 4)), dict(ifm=(1, 9, 9, 4))),
+        ("conv 1x1 stride 4x1", cv(stride=(4, 1)), dict(ifm=(1, 16, 16, 4))), ("conv 3x3 SAME", cv(k=(3, 3), padding="SAME"), {}),
+        ("conv dilated height 65", cv(k=(33, 1), dil=(2, 1), padding="SAME", oc=2), dict(ifm=(1, 8, 8, 2))), ("conv batch 2", cv(), dict(ifm=(2, 8, 8, 4))),
+        ("conv int16", cv(), dict(dtype="int16")), ("conv uint8 stride 4x4", cv(stride=(4, 4)), dict(ifm=(1, 9, 9, 4), dtype="uint8")),
+        ("dwconv stride 1", lambda b, x: b.dwconv(x, (2, 2), (1, 1), (1, 1), "VALID"), {}), ("dwconv stride 4x4", lambda b, x: b.dwconv(x, (2, 2), (4, 4), (1, 1), "VALID"), dict(ifm=(1, 10, 10, 4))),
+        ("tconv stride 2", lambda b, x: b.transpose_conv(x, 4, (3, 3), (2, 2), "SAME"), dict(ifm=(1, 4, 4, 4))),
+        ("tconv stride 3", lambda b, x: b.transpose_conv(x, 4, (3, 3), (3, 3), "SAME"), dict(ifm=(1, 4, 4, 4))),
+        ("MAX_POOL_2D stride 2", lambda b, x: b.pool(x, "MAX_POOL_2D", (2, 2), (2, 2), "VALID"), dict(ifm=(1, 8, 12, 4))),
+        ("MAX_POOL_2D stride 4x4", lambda b, x: b.pool(x, "MAX_POOL_2D", (2, 2), (4, 4), "VALID"), dict(ifm=(1, 10, 14, 4))),
+        ("MAX_POOL_2D 1x1 stride 4x1", lambda b, x: b.pool(x, "MAX_POOL_2D", (1, 1), (4, 1), "VALID"), dict(ifm=(1, 16, 16, 4))),
+        ("AVERAGE_POOL_2D stride 2", lambda b, x: b.pool(x, "AVERAGE_POOL_2D", (2, 2), (2, 2), "VALID"), dict(ifm=(1, 8, 12, 4))),
+        ("AVERAGE_POOL_2D stride 1x4", lambda b, x: b.pool(x, "AVERAGE_POOL_2D", (2, 2), (1, 4), "VALID"), dict(ifm=(1, 8, 14, 4))),
+        ("AVERAGE_POOL_2D k 9x8 SAME", lambda b, x: b.pool(x, "AVERAGE_POOL_2D", (9, 8), (1, 1), "SAME"), dict(ifm=(1, 12, 12, 4))),
+        ("MAX_POOL_2D batch 2", lambda b, x: b.pool(x, "MAX_POOL_2D"), dict(ifm=(2, 8, 8, 4))),
+        ("fc", lambda b, x: b.fc(x, 8), dict(ifm=(1, 16))), ("fc dynamic weights", fc_dynamic, dict(ifm=(1, 16))),
+        ("ADD", add_two("ADD"), dict(ifm=(1, 4, 4, 8))), ("MUL", add_two("MUL"), dict(ifm=(1, 4, 4, 8))), ("SUB batch 2", add_two("SUB"), dict(ifm=(2, 4, 4, 8))),
+        ("ADD int8+uint8", add_mixed, dict(ifm=(1, 4, 4, 8))), ("MAXIMUM quantisation mismatch", add_two("MAXIMUM"), dict(ifm=(1, 4, 4, 8))),
+        ("MEAN hw", mean((1, 2)), {}), ("MEAN batch axis", mean((0,)), {}), ("MEAN hw batch 2", mean((1, 2)), dict(ifm=(2, 8, 8, 4))),
+        ("RESIZE_BILINEAR x2", resize("RESIZE_BILINEAR", (8, 8), False, False), dict(ifm=(1, 4, 4, 4))),
+        ("RESIZE_BILINEAR 4->7", resize("RESIZE_BILINEAR", (7, 7), False, False), dict(ifm=(1, 4, 4, 4))),
+        ("RESIZE_NEAREST_NEIGHBOR x2", resize("RESIZE_NEAREST_NEIGHBOR", (8, 8), False, False), dict(ifm=(1, 4, 4, 4))),
+        ("SOFTMAX", softmax_beta(1.0), dict(ifm=(1, 10))), ("SOFTMAX beta -1", softmax_beta(-1.0), dict(ifm=(1, 10))),
+        ("LEAKY_RELU", lambda b, x: b.unary("LEAKY_RELU", x), {}), ("TANH", lambda b, x: b.unary("TANH", x), {}), ("TANH batch 2", lambda b, x: b.unary("TANH", x), dict(ifm=(2, 4, 4, 8))),
+        ("RELU6 batch 2", lambda b, x: b.unary("RELU6", x), dict(ifm=(2, 4, 4, 8))), ("QUANTIZE", lambda b, x: b.quantize(x), {}), ("QUANTIZE batch 2", lambda b, x: b.quantize(x), dict(ifm=(2, 4, 4, 8))),
+        ("RESHAPE", lambda b, x: b.reshape(x, [1, 16, 4, 4]), {}), ("RESHAPE quantisation mismatch", reshape_like("RESHAPE", "quant scale"), {}),
+        ("PAD hw", lambda b, x: b.pad(x, [[0, 0], [1, 1], [1, 1], [0, 0]]), {}), ("PAD batch", lambda b, x: b.pad(x, [[1, 0], [0, 0], [0, 0], [0, 0]]), {}),
+        ("CONCATENATION", lambda b, x: b.concat([x, b.input(list(b.t(x).shape))], 3), {}), ("SPLIT", lambda b, x: b.split(x, 2, 3), dict(ifm=(1, 4, 4, 8))),
+        ("STRIDED_SLICE", ss((0, 1, 1, 0), (1, 5, 5, 4)), {}), ("STRIDED_SLICE stride 2", ss((0, 0, 0, 0), (1, 8, 8, 4), (1, 2, 1, 1)), {}),
+        ("cpu op custom", lambda b, x: b.cpu_op(x, "custom"), {}), ("cpu op floor_div", lambda b, x: b.cpu_op(x, "floor_div"), {}),
+    ]
+    for name, bld, kw in core:
+        for n in range(len(NEIGHBOURS)):
+            net = _one(rng, bld, kw.get("dtype", "int8"), kw.get("ifm", (1, 8, 8, 4)), None, False, n)
+            if net is not None:
+                nb = NEIGHBOURS[n]
+                add(f"core {name}" + (f" [{nb[0]} in front]" if nb[1] == "before" else f" [then {nb[0]}]"), net)
     # ---- small multi-operator networks --------------------------------------------------------------------------------------------------
     nmulti = 1200 if thorough else 80
     for i in range(nmulti):
